@@ -18,8 +18,24 @@ P_TOL = 1e-9           # property tolerance (relative on A, rad on p)
 # library: bit-identical (difference 0.0) for all four windows over every n in 2..299 and 600 random n up to 4096;
 # 1e-14 allows a few ulps of a different libm cos per term and is 5 orders below the last digit of SciPy's coefficients.
 WIN_TOL = 1e-14
+# float32 samples.  NumPy >= 2 runs rfft, `s**2` / mean and scipy's detrend in single precision on float32 input.
+# Measured on the unchanged library against the same sample values held as float64 (3 seeds x 4000 tones and Gaussian
+# signals, n = 2..4096 and 65536, windows None / hann / flattop): csd / psd 5.9e-8 of the largest magnitude, rms
+# 2.1e-7, detrend='linear' 1.2e-6; tone law read from float32 samples (2 seeds x 6000 whole-cycle tones, all seven
+# windows): |c[k]| 6.6e-8 relative, phase 4.8e-8 rad, leakage 3.3e-8, Parseval 1.1e-7, round trip 5.6e-8.
+# Stated tolerances: ~30 x the worst figure.  With a window or in tone_conv the library multiplies by a float64
+# array first and the difference is exactly 0.
+F32_TOL = 2e-6         # model vs implementation and float32-vs-float64 agreement, spectra (of the largest magnitude)
+F32_RMS = 5e-6         # ... util.rms
+F32_DETREND = 4e-5     # ... anything that runs scipy.signal.detrend on float32
+P_TOL32 = 2e-6         # property tolerance on A (relative) and p (rad) when the samples are float32
+INT_AMP = {'int16': 150, 'int32': 30000, 'int64': 10 ** 6}     # squares stay inside the dtype (util.rms computes s**2)
 # full main-lobe width (null to null) in bins of SciPy's periodic cosine-sum windows
 LOBE = {None: 0, 'hann': 4, 'hamming': 4, 'blackman': 6, 'flattop': 10, 'nuttall': 8, 'blackmanharris': 8}
+# csd_to_signal(csd(S)) for a *batch* S (leading axes): see notes/C16.md "pending defect"; the demand is switched on
+# once the integrator has decided (VERIF_PENDING=1 reproduces it)
+import os
+PENDING_BATCH_INVERSE = os.environ.get('VERIF_PENDING') == '1'
 WINDOWS = [None, 'hann', 'hamming', 'flattop', 'blackman', 'nuttall', 'blackmanharris']
 
 
@@ -29,16 +45,49 @@ def get_window(name, n):
 
 
 def make_signal(c):
+    """the sample *values* (float64); `make_input` gives them in the caller's container"""
+    dt = c.get('dtype')
     if c['kind'] == 'tone':
         n, k, fs = c['n'], c['k'], c['fs']
         t = np.arange(n) / fs
         f = k * fs / n
-        return c['A'] * np.sqrt(2) * np.cos(2 * np.pi * f * t + c['p'])
-    rs = np.random.RandomState(c['seed'])
-    s = rs.randn(c['n']) * c['A']
-    if c.get('dc'):
-        s = s + c['dc']
+        s = c['A'] * np.sqrt(2) * np.cos(2 * np.pi * f * t + c['p'])
+    elif dt in INT_AMP:
+        a = min(INT_AMP[dt], max(1, int(c['A'])))
+        return np.random.RandomState(c['seed']).randint(-a, a + 1, size=c['n']).astype(float)
+    else:
+        rs = np.random.RandomState(c['seed'])
+        s = rs.randn(c['n']) * c['A']
+        if c.get('dc'):
+            s = s + c['dc']
+    if dt == 'float32':
+        s = s.astype(np.float32).astype(float)
     return s
+
+
+def as_input(c, s):
+    """the values `s` as the caller holds them: dtype float64 (default) / float32 / int16 / int32 / int64, and
+    optionally a read-only array or a strided view"""
+    dt = c.get('dtype')
+    a = np.asarray(s).astype(dt) if dt else np.array(s, dtype=float)
+    mem = c.get('mem')
+    if mem == 'strided':
+        big = np.zeros(a.shape[:-1] + (2 * a.shape[-1],), dtype=a.dtype)
+        big[..., ::2] = a
+        a = big[..., ::2]
+    elif mem == 'readonly':
+        a.setflags(write=False)
+    return a
+
+
+def tol_of(c, base=None):
+    base = SPEC_TOL if base is None else base
+    return max(base, F32_TOL) if c.get('dtype') == 'float32' else base
+
+
+def fs_of(c):
+    fs = c['fs']
+    return int(fs) if c.get('fsrepr') == 'int' and float(fs).is_integer() else fs
 
 
 def averaged(c, s):
@@ -50,6 +99,10 @@ def averaged(c, s):
         ss = np.random.RandomState(c['seed'] ^ 0x2545).randn(c['avg'] * c['n']) * c['A']
     if c['extra']:
         ss = np.concatenate([ss, np.full(c['extra'], 0.123 * c['A'])])
+    if c.get('dtype') == 'float32':
+        ss = ss.astype(np.float32).astype(float)
+    elif c.get('dtype') in INT_AMP:
+        ss = np.round(ss / max(np.max(np.abs(ss)), 1e-300) * min(INT_AMP[c['dtype']], max(1, int(c['A']))))
     return ss
 
 
@@ -109,7 +162,10 @@ class C16(FloatSpec):
             '4096 x random bin, amplitude 1e-3..1e3, phase in (-3.1, 3.1), fs, window in {None, hann, hamming, flattop, '
             'blackman, nuttall, blackmanharris}, averages 1..8 with 0..avg-1 trailing samples; seeded Gaussian signals with the same grids and '
             'batch shapes; level helpers on random values and arrays. A case is non-trivial when the signal is not '
-            'constant; distinct = distinct case hash.')
+            'constant; distinct = distinct case hash. Hardening: samples held as float32 / int16 / int32 / int64, read-only '
+            'or strided; batch shapes (incl. size-1 axes) for csd, psd (averaged, trailing samples), tone_conv (scalar and '
+            'array frequency), rms, rms_rfft; positional spelling; arguments compared with a copy after every call; '
+            'level helpers on integers, arrays, lists, Series; signals of 2^16..2^17 (thorough 2^20) samples.')
     exhaustive_note = {
         'quick': 'tones, no window: every length 8..40 x every bin 0..n/2',
         'thorough': 'tones, no window: every length 8..96 x every bin 0..n/2; hann: every length 24..64 x every bin',
@@ -139,20 +195,36 @@ class C16(FloatSpec):
                 k = rng.randint(W + 1, math.ceil(n / 2 - W) - 1)
             else:
                 k = rng.randint(0, n // 2)
-            yield self.tone_case(rng, n, k, w)
+            c = self.tone_case(rng, n, k, w)
+            # how the caller holds the samples: float32 (wav data, acquisition hardware), read-only, strided
+            c.update(dtype=rng.choice([None, None, 'float32']), mem=rng.choice([None, None, 'readonly', 'strided']),
+                     fsrepr=rng.choice([None, 'int']))
+            yield c
+        # far beyond the usual sizes: 2^16 .. 2^17 samples (quick), 2^20 (thorough), even and odd
+        for n in ([2 ** 16 + rng.choice([0, 1]), rng.randint(2 ** 16, 2 ** 17)] if quick else
+                  [2 ** 20 - rng.choice([0, 1]), 2 ** 16 + 1, rng.randint(2 ** 16, 2 ** 18)]):   # (a 2^20 case costs ~40 s)
+            w = rng.choice(WINDOWS)
+            W = LOBE[w]
+            c = self.tone_case(rng, n, rng.randint(W + 1, math.ceil(n / 2 - W) - 1), w)
+            c.update(dtype=rng.choice([None, 'float32']), mem=rng.choice([None, 'readonly']))
+            yield c
         for i in range(nr // 2):
             n = rng.randint(2, 200) if rng.random() < 0.9 else rng.randint(201, 1024)
+            if i == 0:
+                n = 2 ** 16 + rng.choice([0, 1, 3])
             avg = rng.randint(1, 8)
             yield {'kind': 'random', 'n': n, 'A': 10 ** rng.uniform(-3, 3), 'seed': rng.randint(0, 2 ** 31 - 1),
                    'dc': rng.choice([0.0, 0.0, rng.uniform(-2, 2)]), 'window': rng.choice(WINDOWS),
                    'avg': avg, 'extra': rng.randint(0, avg - 1), 'fs': float(rng.choice([1000, 44100, 97656.25])),
-                   'batch': rng.choice([[], [2], [3, 2]])}
+                   'batch': rng.choice([[], [2], [3, 2], [1], [1, 4]]),
+                   'dtype': rng.choice([None, None, 'float32', 'int16', 'int32', 'int64']),
+                   'mem': rng.choice([None, None, 'readonly', 'strided']), 'fsrepr': rng.choice([None, 'int'])}
         for i in range(nr // 2):
             yield {'kind': 'level', 'x': 10 ** rng.uniform(-8, 4), 'r': rng.choice([1.0, 20e-6, 10 ** rng.uniform(-6, 2)]),
                    'd': rng.choice([float(rng.randint(-40, 140)), rng.uniform(-120, 160)]),
                    'nb': rng.choice([float(rng.randint(1, 100000)), rng.uniform(0.5, 5e4)]),
                    'arr': [10 ** rng.uniform(-6, 3) for _ in range(rng.randint(0, 5))],
-                   'bad': rng.choice([None, None, None, 0.0, -1.0])}
+                   'bad': rng.choice([None, None, None, 0.0, -1.0]), 'xi': rng.choice([0, rng.randint(1, 2000)])}
 
     def tone_case(self, rng, n, k, w):
         avg = rng.randint(1, 8)
@@ -219,31 +291,35 @@ class C16(FloatSpec):
             if c['bad'] is not None:
                 R += [num(util.db(c['bad'])), num(util.patodb(c['bad']))]
             return R
-        s = make_signal(c)
-        n, w, fs = c['n'], c['window'], c['fs']
+        sv = make_signal(c)
+        s = as_input(c, sv)                 # the caller's own array (dtype, read-only, strided)
+        n, w, fs = c['n'], c['window'], fs_of(c)
+        T = tol_of(c)
+        f32 = c.get('dtype') == 'float32'
         ks, _ = bins_of(c)
         z = util.csd(s, window=w, detrend=None)
-        R = [('ok',), ('ok',) if w is None else vals(get_window(w, n), 0.0, WIN_TOL), cvals(z[ks], SPEC_TOL),
-             num(util.rms(s), 1e-11)]
+        R = [('ok',), ('ok',) if w is None else vals(get_window(w, n), 0.0, WIN_TOL), cvals(z[ks], T),
+             num(util.rms(s), F32_RMS if f32 else 1e-11)]
         if c['kind'] == 'tone':
-            f = c['k'] * fs / n
-            R.append(cvals([z[c['k']]], SPEC_TOL))
-            R += [cvals([util.tone_conv(s, fs, f, window=w, detrend=None)], SPEC_TOL * max(1.0, n / 64)),
-                  num(util.tone_power_conv(s, fs, f, window=w, detrend=None), SPEC_TOL * max(1.0, n / 64),
-                      SPEC_TOL * c['A'] * max(1.0, n / 64))]
+            f = c['k'] * c['fs'] / n
+            R.append(cvals([z[c['k']]], T))
+            R += [cvals([util.tone_conv(s, fs, f, window=w, detrend=None)], T * max(1.0, n / 64)),
+                  num(util.tone_power_conv(s, fs, f, window=w, detrend=None), T * max(1.0, n / 64),
+                      T * c['A'] * max(1.0, n / 64))]
         if w is None and n <= 256:
-            pb = self.phase_bins(c, s)
+            pb = self.phase_bins(c, sv)
             idx = [int(v) for v in pb.split(',')] if pb != '-' else []
             ph = np.asarray(util.phase(s, fs, unwrap=False))
-            R.append(vals(ph[idx], 0.0, 1e-8))
+            # bins down to 1e-3 of the largest magnitude: a float32 rfft error of F32_TOL x max is F32_TOL / 1e-3 rad there
+            R.append(vals(ph[idx], 0.0, 1e3 * F32_TOL if f32 else 1e-8))
         if n % 2 == 0 and n <= 512:
             R.append(('ok',))
-            R.append(vals(util.csd_to_signal(z), SPEC_TOL))
-            R.append(num(util.rms_rfft(z), 1e-11))
+            R.append(vals(util.csd_to_signal(z), T))
+            R.append(num(util.rms_rfft(z), F32_TOL if f32 else 1e-11))
         if c['avg'] * n <= 4096:
-            ss = averaged(c, s)
+            ss = as_input(c, averaged(c, sv))
             R.append(('ok',))
-            R.append(vals(util.psd(ss, fs, window=w, waveform_averages=c['avg'], detrend=None)[psd_bins(c)[0]], SPEC_TOL))
+            R.append(vals(util.psd(ss, fs, window=w, waveform_averages=c['avg'], detrend=None)[psd_bins(c)[0]], T))
         return R
 
     # ---------------------------------------------------------------- the property on the implementation
@@ -277,10 +353,38 @@ class C16(FloatSpec):
                 b = np.array([float(util.patodb(v)) for v in c['arr']])
                 if a.shape != b.shape or not np.allclose(a, b, rtol=1e-12, atol=0):
                     return f'patodb on a sequence differs from elementwise: {a!r} vs {b!r}'
+                f = self._level_arrays(c)
+                if f:
+                    return f
+            # whole numbers written as Python / NumPy integers are the same numbers
+            xi = c.get('xi')
+            if xi:
+                for name, fn in (('db', util.db), ('dbi', util.dbi), ('dbtopa', util.dbtopa), ('patodb', util.patodb),
+                                 ('spectrum_to_band_level(., 7)', lambda v: util.spectrum_to_band_level(v, 7)),
+                                 ('band_to_spectrum_level(40, .)', lambda v: util.band_to_spectrum_level(40, v)),
+                                 ('db(3, .)', lambda v: util.db(3, v)), ('dbi(3, .)', lambda v: util.dbi(3, v))):
+                    want = float(fn(float(xi)))
+                    for v in (int(xi), np.int64(xi), np.float64(xi), np.array(xi)):   # (NumPy takes log10 of an int16 in float32: not asked)
+                        got = float(fn(v))
+                        if not abs(got - want) <= 1e-12 * max(1.0, abs(want)):
+                            return f'{name} of {v!r} ({type(v).__name__}) = {got!r}, of the float {float(xi)!r} = {want!r}'
             return None
 
-        s = make_signal(c)
-        n, w, fs, A = c['n'], c['window'], c['fs'], c['A']
+        sv = make_signal(c)                 # the values
+        s = as_input(c, sv)                 # what the caller hands over
+        keep = np.array(s, copy=True)
+        f = self._signal_laws(c, sv, s)
+        if f is None and not (s.dtype == keep.dtype and np.array_equal(s, keep)):
+            f = (f'a spectrum helper modified the caller\'s samples ({c.get("dtype") or "float64"}, n={c["n"]}, '
+                 f'window={c["window"]})')
+        return f
+
+    def _signal_laws(self, c, sv, s):
+        from psiaudio import util
+        n, w, fs, A = c['n'], c['window'], fs_of(c), c['A']
+        f32 = c.get('dtype') == 'float32'
+        PT = P_TOL32 if f32 else P_TOL          # property tolerance (see the float32 measurement at the top)
+        ST = F32_TOL if f32 else 1e-12          # "the same thing computed twice" tolerance
         if w == 'hann':
             # the window of theorem `csd_hann_tone` (hannW) is SciPy's periodic hann
             hw = 0.5 - 0.5 * np.cos(2 * np.pi * np.arange(n) / n)
@@ -289,97 +393,233 @@ class C16(FloatSpec):
         z = util.csd(s, window=w, detrend=None)
         if z.shape != (n // 2 + 1,):
             return f'csd of {n} samples has shape {z.shape}'
+        big = float(np.max(np.abs(sv))) if n else 0.0
+        # the same values in another container (integer / float32 dtype, read-only, strided) read the same
+        if c.get('dtype') or c.get('mem'):
+            zv = util.csd(sv, window=w, detrend=None)
+            if not np.allclose(z, zv, rtol=0, atol=ST * max(float(np.max(np.abs(zv))), 1e-300)):
+                return (f'csd of the same samples held as {c.get("dtype") or "float64"}/{c.get("mem") or "plain"} differs '
+                        f'from csd of the float64 values by {np.max(np.abs(z - zv))!r} (n={n}, window={w})')
+            r1, r2 = float(util.rms(s)), float(util.rms(sv))
+            if not abs(r1 - r2) <= (F32_RMS if f32 else 1e-12) * r2:
+                return f'rms of the same samples held as {c.get("dtype")} is {r1!r}, as float64 {r2!r} (n={n})'
+            d1, d2 = util.csd(s, window=w), util.csd(sv, window=w)
+            if not np.allclose(d1, d2, rtol=0, atol=(F32_DETREND if f32 else 1e-12) * max(big, 1e-300)):
+                return (f"csd (detrend='linear') of the samples held as {c.get('dtype') or 'float64'} differs from the float64 "
+                        f'reading by {np.max(np.abs(d1 - d2))!r} (n={n}, window={w})')
+        # spelling of the arguments: positional = keyword; a window of ones = no window
+        zp = util.csd(s, w, None)
+        if not np.array_equal(zp, z):
+            return f'csd(s, {w!r}, None) differs from csd(s, window={w!r}, detrend=None) (n={n})'
+        if w is None:
+            zb = util.csd(s, window='boxcar', detrend=None)
+            if not np.allclose(zb, z, rtol=0, atol=ST * max(big, 1e-300)):
+                return f"csd with window='boxcar' (all ones) differs from csd without a window (n={n})"
         # Parseval with the doubly counted DC / Nyquist bins (any signal, no window)
         if w is None:
             tot = float(np.sum(np.abs(z) ** 2))
-            ms = float(np.mean(s ** 2))
+            ms = float(np.mean(sv ** 2))
             extra = 0.5 * abs(z[0]) ** 2 + (0.5 * abs(z[-1]) ** 2 if n % 2 == 0 else 0.0)
-            if not abs(tot - (ms + extra)) <= 1e-9 * max(ms, 1e-300):
+            if not abs(tot - (ms + extra)) <= max(1e-9, 3 * PT if f32 else 0) * max(ms, 1e-300):
                 return (f'Parseval: sum|csd|^2 = {tot!r}, mean square = {ms!r}, double-counted DC/Nyquist part '
                         f'= {extra!r} (n={n})')
-            if not abs(float(util.rms(s)) - math.sqrt(ms)) <= 1e-12 * math.sqrt(ms):
+            if not abs(float(util.rms(s)) - math.sqrt(ms)) <= (F32_RMS if f32 else 1e-12) * math.sqrt(ms):
                 return f'rms(s) = {util.rms(s)!r}, sqrt(mean square) = {math.sqrt(ms)!r}'
         # spectrum -> signal inverts signal -> spectrum (even lengths)
         if n % 2 == 0 and n >= 2:
             zz = util.csd(s, detrend=None)
+            zkeep = zz.copy()
             back = util.csd_to_signal(zz)
-            if back.shape != s.shape or not np.max(np.abs(back - s)) <= 1e-9 * max(np.max(np.abs(s)), 1e-300):
-                return f'csd_to_signal(csd(s)) differs from s by {np.max(np.abs(back - s))!r} (n={n})'
+            if not np.array_equal(zz, zkeep):
+                return f'csd_to_signal modified the spectrum it was given (n={n})'
+            if back.shape != sv.shape or not np.max(np.abs(back - sv)) <= max(1e-9, PT if f32 else 0) * max(big, 1e-300):
+                return f'csd_to_signal(csd(s)) differs from s by {np.max(np.abs(back - sv))!r} (n={n})'
         if c['kind'] == 'random':
-            # batch shapes: the last axis is time, leading axes are independent
-            if c['batch']:
-                rs = np.random.RandomState(c['seed'] ^ 0x5bd1)
-                S = rs.randn(*c['batch'], n) * A
-                Z = util.csd(S, window=w, detrend=None)
-                P = util.psd(S, fs, window=w, detrend=None)
-                flat = S.reshape(-1, n)
-                for i, row in enumerate(flat):
-                    zr = util.csd(row, window=w, detrend=None)
-                    if not np.allclose(Z.reshape(-1, Z.shape[-1])[i], zr, rtol=1e-12, atol=1e-12 * A):
-                        return f'csd on batch shape {c["batch"]} differs from row-wise csd (row {i})'
-                    if not np.allclose(P.reshape(-1, P.shape[-1])[i], np.abs(zr), rtol=1e-12, atol=1e-12 * A):
-                        return f'psd on batch shape {c["batch"]} differs from row-wise |csd| (row {i})'
-            # averaging: psd = mean of the segments' magnitudes, trailing samples trimmed
-            avg = c['avg']
-            ss = averaged(c, s)
-            P = util.psd(ss, fs, window=w, waveform_averages=avg, detrend=None)
-            want = np.mean([np.abs(util.csd(ss[i * n:(i + 1) * n], window=w, detrend=None)) for i in range(avg)], axis=0)
-            if P.shape != want.shape or not np.allclose(P, want, rtol=1e-12, atol=1e-12 * A):
-                return (f'psd(waveform_averages={avg}) with {c["extra"]} trailing samples differs from the mean of '
-                        f'the segment magnitudes (segment length {n})')
-            return None
+            return self._random_laws(c, sv, s, z)
 
         # ---- whole-cycle tone ----
         k, p = c['k'], c['p']
         if not whole_cycle_ok(c):
             return None
         target = A * np.exp(1j * p)
-        if abs(abs(z[k]) - A) > P_TOL * A or abs(wrap(np.angle(z[k]) - p)) > P_TOL:
-            return (f'csd of a tone (A={A!r}, p={p!r}, n={n}, k={k}, window={w}) reads |c[k]| = {abs(z[k])!r}, '
-                    f'angle = {np.angle(z[k])!r}')
+        if abs(abs(z[k]) - A) > PT * A or abs(wrap(np.angle(z[k]) - p)) > PT:
+            return (f'csd of a tone (A={A!r}, p={p!r}, n={n}, k={k}, window={w}, {c.get("dtype") or "float64"}) reads '
+                    f'|c[k]| = {abs(z[k])!r}, angle = {np.angle(z[k])!r}')
         if w is None:
             others = np.delete(np.abs(z), k)
-            if others.size and others.max() > P_TOL * A:
+            if others.size and others.max() > PT * A:
                 return f'csd of a whole-cycle tone (n={n}, k={k}) leaks {others.max()!r} into another bin (A={A!r})'
         # any averaging count, trailing samples trimmed
-        ss = averaged(c, s)
+        ss = as_input(c, averaged(c, sv))
+        sskeep = np.array(ss, copy=True)
         P = util.psd(ss, fs, window=w, waveform_averages=c['avg'], detrend=None)
-        if P.shape != z.shape or abs(P[k] - A) > P_TOL * A:
+        if P.shape != z.shape or abs(P[k] - A) > PT * A:
             return (f'psd(waveform_averages={c["avg"]}, {c["extra"]} trailing samples) of the tone reads '
                     f'{P[k] if P.shape == z.shape else P.shape!r} at bin {k}, A = {A!r} (n={n}, window={w})')
+        Pp = util.psd(ss, fs, w, c['avg'], detrend=None)
+        if not np.array_equal(P, Pp) or not np.array_equal(ss, sskeep):
+            return (f'psd: positional window / waveform_averages differ from the keyword spelling, or the samples were '
+                    f'modified (n={n}, avg={c["avg"]}, window={w})')
         # single-frequency estimator
-        f = k * fs / n
+        f = k * c['fs'] / n
         r = util.tone_conv(s, fs, f, window=w, detrend=None)
         tp = float(util.tone_power_conv(s, fs, f, window=w, detrend=None))
-        if abs(tp - A) > P_TOL * A or abs(wrap(np.angle(r) - p)) > P_TOL:
+        if abs(tp - A) > PT * A or abs(wrap(np.angle(r) - p)) > PT:
             return (f'tone_conv on a whole-cycle tone (A={A!r}, p={p!r}, n={n}, k={k}, fs={fs!r}, window={w}) gives '
                     f'power {tp!r}, phase {np.angle(r)!r}')
+        if util.tone_conv(s, fs, f, w, None) != r:
+            return f'tone_conv(s, fs, f, {w!r}, None) differs from the keyword spelling (n={n}, k={k})'
         # the analysis frequency handed over as the caller's own array (0-d and 1-d), and re-used for the next call:
         # the estimate depends on the arguments' values only, and the arguments are still what the caller put there
-        for farr in (np.array(f, dtype=np.double), np.array([f], dtype=np.double)):
-            keep, s_keep = farr.copy(), s.copy()
-            a1 = np.asarray(util.tone_power_conv(s, fs, farr, window=w, detrend=None), dtype=float).reshape(-1)[0]
-            a2 = np.asarray(util.tone_power_conv(s, fs, farr, window=w, detrend=None), dtype=float).reshape(-1)[0]
-            p2 = float(np.angle(np.asarray(util.tone_conv(s, fs, farr, window=w, detrend=None)).reshape(-1)[0]))
-            if not np.array_equal(farr, keep) or not np.array_equal(s, s_keep):
+        for farr in (np.array(f, dtype=np.double), np.array([f], dtype=np.double), [f], np.array([f, f / 2, f])):
+            keep = np.array(farr, copy=True)
+            a1 = np.asarray(util.tone_power_conv(s, fs, farr, window=w, detrend=None), dtype=float).reshape(-1)
+            a2 = np.asarray(util.tone_power_conv(s, fs, farr, window=w, detrend=None), dtype=float).reshape(-1)
+            p2 = np.angle(np.asarray(util.tone_conv(s, fs, farr, window=w, detrend=None)).reshape(-1))
+            if not np.array_equal(np.asarray(farr), keep):
                 return (f'tone estimators modified their arguments: frequency array {keep.tolist()!r} -> '
-                        f'{farr.tolist()!r} (n={n}, k={k}, fs={fs!r})')
-            if abs(a1 - A) > P_TOL * A or abs(a2 - A) > P_TOL * A or abs(wrap(p2 - p)) > P_TOL:
-                return (f'tone estimators with the frequency given as a {farr.ndim}-d array, called three times on the '
-                        f'same arguments: powers {a1!r}, {a2!r}, phase {p2!r}; A={A!r}, p={p!r} (n={n}, k={k}, fs={fs!r})')
+                        f'{np.asarray(farr).tolist()!r} (n={n}, k={k}, fs={fs!r})')
+            if a1.shape != (keep.size,) or not np.array_equal(a1, a2):
+                return f'tone_power_conv with {keep.size} frequencies returned shape {a1.shape} / differs between two calls'
+            for j in (0, -1):
+                if abs(a1[j] - A) > PT * A or abs(wrap(float(p2[j]) - p)) > PT:
+                    return (f'tone estimators with the frequency given as {type(farr).__name__} {keep.tolist()!r}, called '
+                            f'repeatedly on the same arguments: power {a1[j]!r}, phase {float(p2[j])!r}; A={A!r}, p={p!r} '
+                            f'(n={n}, k={k}, fs={fs!r})')
         # defaults (detrend='linear'): the least-squares line through whole cycles of a sinusoid is not zero.  Its
         # slope is at most 6*sqrt(2)*A / ((n^2-1) sin(pi k/n)), and a unit ramp reads 1 / (sqrt(2) sin(pi k/n)) at
         # bin k after the csd scaling, so the reading at bin k moves by at most  A * 6 / ((n^2-1) sin^2(pi k/n))
         # — the stated tolerance of this part of the check (x1.05).
         bias = 6.0 / ((n * n - 1) * math.sin(math.pi * k / n) ** 2)
         if bias < 0.2:
-            tol = 1.05 * bias + 1e-9
+            tol = 1.05 * bias + (F32_DETREND if f32 else 1e-9)
             tp = float(util.tone_power_conv(s, fs, f, window=w))
             ph = float(util.tone_phase_conv(s, fs, f, window=w))
             cd = util.csd(s, window=w)[k]
             if w is None and (abs(tp - A) > tol * A or abs(wrap(ph - p)) > 1.2 * tol or abs(cd - target) > tol * A):
                 return (f"defaults (detrend='linear'): tone_power_conv {tp!r}, tone_phase_conv {ph!r}, csd[k] "
                         f'{cd!r} for A={A!r}, p={p!r}, n={n}, k={k} (tolerance {tol!r} = bound on the detrend bias)')
+        return None
+
+    def _random_laws(self, c, sv, s, z):
+        from psiaudio import util
+        n, w, fs, A = c['n'], c['window'], fs_of(c), c['A']
+        f32 = c.get('dtype') == 'float32'
+        ST = F32_TOL if f32 else 1e-12
+        big = max(float(np.max(np.abs(sv))), 1e-300)
+        # batch shapes: the last axis is time, leading axes are independent
+        if c['batch']:
+            rs = np.random.RandomState(c['seed'] ^ 0x5bd1)
+            if c.get('dtype') in INT_AMP:
+                a = min(INT_AMP[c['dtype']], max(1, int(A)))
+                Sv = rs.randint(-a, a + 1, size=tuple(c['batch']) + (n,)).astype(float)
+            else:
+                Sv = rs.randn(*c['batch'], n) * A
+                if f32:
+                    Sv = Sv.astype(np.float32).astype(float)
+            S = as_input(c, Sv)
+            Skeep = np.array(S, copy=True)
+            bigS = max(float(np.max(np.abs(Sv))), 1e-300)
+            Z = util.csd(S, window=w, detrend=None)
+            P = util.psd(S, fs, window=w, detrend=None)
+            fq = (n // 3) * c['fs'] / n
+            farr = np.array([fq, c['fs'] / n])
+            T1 = util.tone_conv(S, fs, fq, window=w, detrend=None)
+            TF = util.tone_conv(S, fs, farr, window=w, detrend=None)
+            RM = util.rms(S)
+            RR = util.rms_rfft(Z)
+            if Z.shape != tuple(c['batch']) + (n // 2 + 1,) or P.shape != Z.shape or np.shape(T1) != tuple(c['batch']) \
+                    or np.shape(TF) != (2,) + tuple(c['batch']) or np.shape(RM) != tuple(c['batch']) \
+                    or np.shape(RR) != tuple(c['batch']):
+                return (f'batch shape {c["batch"]} x {n} samples: csd {Z.shape}, psd {P.shape}, tone_conv {np.shape(T1)}, '
+                        f'tone_conv with 2 frequencies {np.shape(TF)}, rms {np.shape(RM)}, rms_rfft {np.shape(RR)}')
+            flat, flatv = S.reshape(-1, n), Sv.reshape(-1, n)
+            for i, row in enumerate(flat):
+                zr = util.csd(row, window=w, detrend=None)
+                if not np.allclose(Z.reshape(-1, Z.shape[-1])[i], zr, rtol=1e-12, atol=ST * bigS):
+                    return f'csd on batch shape {c["batch"]} differs from row-wise csd (row {i})'
+                if not np.allclose(P.reshape(-1, P.shape[-1])[i], np.abs(zr), rtol=1e-12, atol=ST * bigS):
+                    return f'psd on batch shape {c["batch"]} differs from row-wise |csd| (row {i})'
+                t1 = util.tone_conv(row, fs, fq, window=w, detrend=None)
+                if not abs(np.ravel(T1)[i] - t1) <= 1e-12 * bigS:
+                    return f'tone_conv on batch shape {c["batch"]} differs from the row-wise estimate (row {i})'
+                for j in (0, 1):
+                    tj = util.tone_conv(row, fs, farr[j], window=w, detrend=None)
+                    if not abs(TF.reshape(2, -1)[j, i] - tj) <= 1e-12 * bigS:
+                        return (f'tone_conv with a frequency array on batch shape {c["batch"]}: entry [{j}] of row {i} '
+                                f'differs from the single-frequency estimate')
+                if not abs(np.ravel(RM)[i] - util.rms(row)) <= (F32_RMS if f32 else 1e-12) * bigS:
+                    return f'rms on batch shape {c["batch"]} differs from the row-wise rms (row {i})'
+                if not abs(np.ravel(RR)[i] - math.sqrt(float(np.sum(np.abs(zr) ** 2)))) <= max(ST, 1e-12) * bigS:
+                    return f'rms_rfft on batch shape {c["batch"]} differs from sqrt(sum |csd|^2) of the row (row {i})'
+            # averaging on a batch, trailing samples trimmed: row by row the single-signal reading
+            avg = c['avg']
+            if n >= avg:
+                Pa = util.psd(S, fs, window=w, waveform_averages=avg, detrend=None)
+                for i, row in enumerate(flat):
+                    pr = util.psd(row, fs, window=w, waveform_averages=avg, detrend=None)
+                    if Pa.shape[:-1] != tuple(c['batch']) or not np.allclose(Pa.reshape(-1, Pa.shape[-1])[i], pr, rtol=1e-12,
+                                                                              atol=ST * bigS):
+                        return (f'psd(waveform_averages={avg}) on batch shape {c["batch"]} x {n} differs from the row-wise '
+                                f'reading (row {i})')
+            if PENDING_BATCH_INVERSE and n % 2 == 0:
+                back = util.csd_to_signal(util.csd(S, detrend=None))
+                if back.shape != Sv.shape or not np.max(np.abs(back - Sv)) <= max(1e-9, ST) * bigS:
+                    return (f'csd_to_signal(csd(S)) on batch shape {c["batch"]} x {n} differs from S by '
+                            f'{np.max(np.abs(back - Sv)) if back.shape == Sv.shape else back.shape!r}')
+            if not np.array_equal(S, Skeep):
+                return f'a spectrum helper modified the caller\'s batch of samples (shape {S.shape}, {S.dtype})'
+        # averaging: psd = mean of the segments' magnitudes, trailing samples trimmed
+        avg = c['avg']
+        ssv = averaged(c, sv)
+        ss = as_input(c, ssv)
+        P = util.psd(ss, fs, window=w, waveform_averages=avg, detrend=None)
+        want = np.mean([np.abs(util.csd(ssv[i * n:(i + 1) * n], window=w, detrend=None)) for i in range(avg)], axis=0)
+        if P.shape != want.shape or not np.allclose(P, want, rtol=1e-12, atol=ST * max(float(np.max(np.abs(ssv))), 1e-300)):
+            return (f'psd(waveform_averages={avg}) with {c["extra"]} trailing samples differs from the mean of '
+                    f'the segment magnitudes (segment length {n})')
+        return None
+
+    def _level_arrays(self, c):
+        """array forms (ndarray, list, tuple, integer array, 2-D, read-only, Series) = the scalar form element by
+        element; the caller's container is left alone; a Series comes back as a Series on the same index"""
+        import pandas as pd
+        from psiaudio import util
+        arr, r = [float(v) for v in c['arr']], c['r']
+        dbs = [20 * math.log10(v) for v in arr]
+        fns = (('db', lambda a: util.db(a, r), arr, [float(util.db(v, r)) for v in arr]),
+               ('patodb', util.patodb, arr, [float(util.patodb(v)) for v in arr]),
+               ('dbi', lambda a: util.dbi(a, r), dbs, [float(util.dbi(v, r)) for v in dbs]),
+               ('dbtopa', util.dbtopa, dbs, [float(util.dbtopa(v)) for v in dbs]),
+               ('spectrum_to_band_level', lambda a: util.spectrum_to_band_level(a, c['nb']), dbs,
+                [float(util.spectrum_to_band_level(v, c['nb'])) for v in dbs]),
+               ('band_to_spectrum_level', lambda a: util.band_to_spectrum_level(a, c['nb']), dbs,
+                [float(util.band_to_spectrum_level(v, c['nb'])) for v in dbs]))
+        for name, fn, xs, want in fns:
+            ro = np.array(xs)
+            ro.setflags(write=False)
+            forms = [np.array(xs), list(xs), tuple(xs), ro, pd.Series(xs, index=[f'r{i}' for i in range(len(xs))])]
+            if len(xs) % 2 == 0:
+                forms.append(np.array(xs).reshape(2, -1))
+            if name in ('db', 'patodb'):
+                forms.append(np.array(xs, dtype=np.float32))
+            for a in forms:
+                if name.endswith('level') and isinstance(a, (list, tuple)):
+                    continue                # documented for a float level
+                keep = np.array(a, dtype=float, copy=True)
+                got = fn(a)
+                if not np.array_equal(np.asarray(a, dtype=float), keep):
+                    return f'{name} modified the {type(a).__name__} it was given'
+                if isinstance(a, pd.Series) and not (isinstance(got, pd.Series) and got.index.equals(a.index)):
+                    return f'{name} of a Series did not come back as a Series on the same index: {got!r}'
+                g = np.asarray(got, dtype=float)
+                tol = 1e-12
+                # float32 values: the reference dB value is a float64 0-d array, so NumPy computes in float64
+                wantv = np.array([float(fn(float(np.float32(v)))) for v in xs]) if getattr(a, 'dtype', None) == np.float32 \
+                    else np.array(want)
+                if g.shape != np.shape(a) or not np.allclose(g.ravel(), wantv, rtol=tol, atol=tol):
+                    return (f'{name} on a {type(a).__name__}{np.shape(a)} = {g.tolist()!r}, element by element '
+                            f'{list(wantv)!r}')
         return None
 
     def nontrivial(self, c, out):
